@@ -411,7 +411,7 @@ func propTagsRun(t *vt.T) {
 		t.Note("file %s (%d bytes, time +%ds) -> tag %d group %q", f.name, len(f.data), int(f.tm.Sub(base).Seconds()), tagOf(f.name), group(f.name))
 	}
 	var slog bytes.Buffer
-	cmd := exec.Command(bin, "-mode", "out", "-root", home, "-conf", confPath)
+	cmd := exec.Command(bin, "-debug", "-mode", "out", "-root", home, "-conf", confPath)
 	cmd.Stdout, cmd.Stderr, cmd.Dir = &slog, &slog, home
 	cmd.SysProcAttr = &syscall.SysProcAttr{Pdeathsig: syscall.SIGKILL}
 	if err := cmd.Start(); err != nil {
@@ -419,14 +419,23 @@ func propTagsRun(t *vt.T) {
 	}
 	done := make(chan error, 1)
 	go func() { done <- cmd.Wait() }()
+	var exitErr error
 	select {
-	case <-done:
+	case exitErr = <-done:
 	case <-time.After(45 * time.Second):
 		cmd.Process.Kill()
 		<-done
 		t.Class("sender-timeout")
 		t.Skip("the one-shot sender did not exit within 45 s (inconclusive here; stops are C16's subject)")
 	}
+	t.Note("sender exit: %v; its log: %s", exitErr, tail(slog.String(), 6000))
+	expect := map[string]int{}
+	for _, f := range files {
+		if eff[tagOf(f.name)].http {
+			expect[f.name] = len(f.data)
+		}
+	}
+	waitDelivered(filepath.Join(s.home, "data", "in", "src1"), expect, 40*time.Second)
 	s.settle()
 	proxy.mu.Lock()
 	wire := append([]wirePartSeen{}, proxy.parts...)
@@ -543,6 +552,27 @@ func propTagsRun(t *vt.T) {
 	}
 }
 
+// waitDelivered gives the receiver time to finish what the sender was told is "passed" or
+// "waiting": validation and delivery run behind the answers (held files are released when their
+// predecessor arrives or on a 10 s timer). Returns when every expected file is in the final
+// directory with its full size, or after the limit.
+func waitDelivered(dir string, want map[string]int, limit time.Duration) {
+	deadline := time.Now().Add(limit)
+	for time.Now().Before(deadline) {
+		missing := false
+		for name, size := range want {
+			if fi, err := os.Stat(filepath.Join(dir, name)); err != nil || fi.Size() != int64(size) {
+				missing = true
+				break
+			}
+		}
+		if !missing {
+			return
+		}
+		time.Sleep(50 * time.Millisecond)
+	}
+}
+
 func ip(p *int) string {
 	if p == nil {
 		return "-"
@@ -638,7 +668,7 @@ func propWireFaults(t *vt.T) {
 	os.WriteFile(confPath, []byte(conf.String()), 0644)
 	t.Note("threads=%d bin-size=%s data faults=%v cut positions=%v recovery faults=%v poll faults=%v", threads, binSize, proxy.dataFault, proxy.cutAt, proxy.recFault, proxy.pollFault)
 	var slog bytes.Buffer
-	cmd := exec.Command(bin, "-mode", "out", "-root", home, "-conf", confPath)
+	cmd := exec.Command(bin, "-debug", "-mode", "out", "-root", home, "-conf", confPath)
 	cmd.Stdout, cmd.Stderr, cmd.Dir = &slog, &slog, home
 	cmd.SysProcAttr = &syscall.SysProcAttr{Pdeathsig: syscall.SIGKILL}
 	if err := cmd.Start(); err != nil {
@@ -654,6 +684,11 @@ func propWireFaults(t *vt.T) {
 		t.Class("sender-timeout")
 		t.Skip("the one-shot sender did not exit within 45 s (inconclusive here)")
 	}
+	expect := map[string]int{}
+	for _, f := range files {
+		expect[f.name] = len(f.data)
+	}
+	waitDelivered(filepath.Join(s.home, "data", "in", "src1"), expect, 40*time.Second)
 	s.settle()
 	proxy.mu.Lock()
 	events := append([]wireEvent{}, proxy.events...)
